@@ -105,6 +105,21 @@ Proof.
     cbn [strict_type]. rewrite (IHp _ _ eq_refl G). cbn [ir_type]. rw_hyps. cbn [ty_eqb]. reflexivity.
   - (* POrderBy *) open_sub p; try discriminate H. dm H. inversion H; subst.
     cbn [strict_type]. rewrite (IHp _ _ eq_refl G). rw_hyps. reflexivity.
+  - (* PUnion *)
+    apply andb_true_iff in G. destruct G as [G12 G3]. apply andb_true_iff in G12. destruct G12 as [G1 G2].
+    open_sub p1; try discriminate H. open_sub p2; try discriminate H.
+    pose proof (IHp1 _ _ eq_refl G1) as S1. pose proof (IHp2 _ _ eq_refl G2) as S2.
+    destruct (select_fields row key) as [ks1|] eqn:Ek1; [|discriminate H].
+    destruct (select_fields row0 key0) as [ks2|] eqn:Ek2; [|discriminate H].
+    destruct (fields_eqb ks1 ks2 && nlist_eqb key key0) eqn:Ekk; cbn [negb] in H; [|discriminate H].
+    apply andb_true_iff in Ekk. destruct Ekk as [_ Ekeys].
+    destruct unify; cbn [negb] in H.
+    + destruct (fields_eqb (value_fields row key) (value_fields row0 key0)) eqn:Ev.
+      * inversion H; subst. cbn [negb orb] in G3. cbn [strict_type]. rewrite S1, S2, G3, Ekeys. reflexivity.
+      * dm H. inversion H; subst. clear H. split_bools. use_elab.
+        cbn [strict_type]. rewrite S1, S2. rw_hyps. cbn [andb]. reflexivity.
+    + destruct (fields_eqb row row0) eqn:Er; [|discriminate H]. inversion H; subst.
+      cbn [strict_type]. rewrite S1, S2, Er, Ekeys. reflexivity.
   - (* PAnnotateIdx *)
     apply andb_true_iff in G. destruct G as [G1 G2].
     open_sub p1; try discriminate H. open_sub p2; try discriminate H.
@@ -213,10 +228,27 @@ Definition ex_refuted_row_key_type : prog :=
   let m := PMKeyRowsBy (PMAnnotateRows PMRange [(1, ELitStr 0)]) [1] in
   PMAnnotateRowsIv m ex_right_iv 7 (vafield [(ROW_IDX, TI32); (1, TStr)] ROW_IDX) false [(2, lookup_of VA 7)].
 
+(* REFUTED (3): k1 = range_table(n).annotate(a = 1).key_by('a')  (row {idx, a});  k2 = k1.select('idx')  (row {a, idx});
+   k1.union(k2, unify=True): the value types coincide, so no select is made, and TableUnion gets children whose row
+   types differ in field order *)
+Definition ex_union_k1 : prog := PKeyBy (PAnnotate PRange [(0, ELitInt 1)]) [0].
+Definition ex_refuted_union_order : prog := PUnion ex_union_k1 (PSelect ex_union_k1 [IDX]) true.
+
+(* t1 = range.annotate(a = idx, b = 'x'); t2 = range.annotate(b = 'y', a = 1.5); t1.union(t2, unify=True):
+   a is promoted to float64 in the first table, the second is re-ordered; reported row {idx, a: float64, b: str} *)
+Example example_union_unify :
+  let t1 := PAnnotate PRange [(0, tfield [(IDX, TI32)] IDX); (1, ELitStr 1)] in
+  let t2 := PAnnotate PRange [(1, ELitStr 2); (0, ELitFloat 1)] in
+  reported (PUnion t1 t2 true) = Some (RT (TT [] [(IDX, TI32); (0, TF64); (1, TStr)] [IDX]))
+  /\ simple_interval_keys (PUnion t1 t2 true) = true
+  /\ option_map strict_type (emitted (PUnion t1 t2 true)) = Some (reported (PUnion t1 t2 true)).
+Proof. vm_compute. repeat split. Qed.
+
 Theorem table_type_agreement_refuted :
   (exists t x, telab ex_refuted_compound_key = Some (t, x) /\ strict_type x = None) /\
-  (exists t x, telab ex_refuted_row_key_type = Some (t, x) /\ strict_type x = None).
-Proof. split; vm_compute; eexists; eexists; split; reflexivity. Qed.
+  (exists t x, telab ex_refuted_row_key_type = Some (t, x) /\ strict_type x = None) /\
+  (exists t x, telab ex_refuted_union_order = Some (t, x) /\ strict_type x = None).
+Proof. repeat split; vm_compute; eexists; eexists; split; reflexivity. Qed.
 
 Theorem table_type_agreement_full_fails : ~ table_type_agreement_full.
 Proof.
